@@ -136,6 +136,39 @@ fn mean_ci<F: Fl>(case: &Value) -> Value {
     };
     ev["confv"] = crate::conf::enc_conf(&conf);
     let mut stats = json!({});
+    // C09: the sample delivered as many partial states merged with + / += in a fixed shape
+    //   lfold1 / rfold1 : singleton states, total = total + chunk  /  total = chunk + total
+    //   rfold1_assign   : chunk += total; total = chunk
+    //   lfold7 / rfold7 : chunk sizes cycling 1..7
+    //   tree            : chunks of sizes cycling 1..7 merged pairwise, level by level
+    macro_rules! merged {
+        ($T:ident) => {{
+            let sizes: Vec<usize> = if style.ends_with('1') || style == "rfold1_assign" { vec![1] } else { (1..=7).collect() };
+            let mut chunks: Vec<$T<F>> = Vec::new();
+            let mut i = 0; let mut k = 0;
+            while i < a.len() {
+                let j = (i + sizes[k % sizes.len()]).min(a.len());
+                chunks.push($T::<F>::from_iter(&a[i..j].to_vec())?);
+                i = j; k += 1;
+            }
+            match style {
+                "lfold1" | "lfold7" => { let mut t = $T::<F>::new(); for c in chunks { t = t + c; } t }
+                "rfold1" | "rfold7" => { let mut t = $T::<F>::new(); for c in chunks { t = c + t; } t }
+                "rfold1_assign" => { let mut t = $T::<F>::new(); for mut c in chunks { c += t; t = c; } t }
+                _ => {
+                    while chunks.len() > 1 {
+                        let mut next = Vec::with_capacity(chunks.len() / 2 + 1);
+                        let mut it = chunks.into_iter();
+                        while let Some(x) = it.next() {
+                            match it.next() { Some(y) => next.push(x + y), None => next.push(x) }
+                        }
+                        chunks = next;
+                    }
+                    chunks.pop().unwrap_or_else(|| $T::<F>::new())
+                }
+            }
+        }};
+    }
     macro_rules! single {
         ($T:ident, $has_var:expr) => {{
             // state-based styles keep the register to report its statistics
@@ -152,6 +185,9 @@ fn mean_ci<F: Fl>(case: &Value) -> Value {
                         for x in &a { if let Err(e) = StatisticsOps::append(&mut s, *x) { reg = Some(s); return Err(e); } }
                         reg = Some(s);
                         s.ci_mean(conf)
+                    }
+                    "lfold1" | "rfold1" | "rfold1_assign" | "lfold7" | "rfold7" | "tree" => {
+                        let s = merged!($T); reg = Some(s); s.ci_mean(conf)
                     }
                     s => panic!("style {}", s),
                 }
@@ -173,7 +209,12 @@ fn mean_ci<F: Fl>(case: &Value) -> Value {
         "arith" => {
             let o = single!(Arithmetic, true);
             let mut s = Arithmetic::<F>::new();
-            let _ = s.extend(&a);
+            if matches!(style, "lfold1" | "rfold1" | "rfold1_assign" | "lfold7" | "rfold7" | "tree") {
+                // variance / std of the merged register itself (the merge is deterministic)
+                if let Ok(Ok(m)) = catch_unwind(AssertUnwindSafe(|| -> Result<Arithmetic<F>, CIError> { Ok(merged!(Arithmetic)) })) { s = m; }
+            } else {
+                let _ = s.extend(&a);
+            }
             stats["var"] = stat(|| s.sample_variance());
             stats["std"] = stat(|| s.sample_std_dev());
             o
